@@ -995,9 +995,9 @@ class Gen:
                         v = ["list", "string", [["lit", "string", "c%d" % i] for i in range(r.randint(1, 3))]]
                     o["consts"].append([p, v])
         # layer 1 first (so that layer 2 knows which objects bind midPeer), then layer 2
-        total = n_bindings or r.randint(4, 14)
+        total = r.randint(4, 14) if n_bindings is None else n_bindings
         for o in self.objs:
-            if not o["id"] or o in real_objs:
+            if not o["id"] or o in real_objs or total == 0:
                 continue
             self.cur_owner, self.owner_cls, self.cur_layer = o["id"], o["cls"], 1
             for ty, props in sorted(MID_TARGETS.items()):
